@@ -391,7 +391,13 @@ pub fn c09(cx: &mut Ctx) {
 
 /// drive a request/response exchange given as explicit pieces; asks the verdict in redirect and cleanup
 fn c10_exchange(cx: &mut Ctx, req: &str, scenario: usize, stream: &[u8]) {
+    c10_exchange_prep(cx, req, &[], scenario, stream)
+}
+
+/// the same, with operations made in the prepare state first (headers added by the caller)
+fn c10_exchange_prep(cx: &mut Ctx, req: &str, prep: &[String], scenario: usize, stream: &[u8]) {
     if cx.rec.new_flow(req) != "ok" { return; }
+    for p in prep { cx.op(p); }
     cx.op("proceed");
     cx.op("write 4096");
     cx.op("proceed");
@@ -449,6 +455,31 @@ fn c10_exchange(cx: &mut Ctx, req: &str, scenario: usize, stream: &[u8]) {
 }
 
 pub fn c10(cx: &mut Ctx) {
+    // round 18: the verdict speaks about the request as the caller made it — headers added in the prepare state
+    // (another Connection value, unrelated fields) around an original `Connection: close` / keep-alive must not
+    // change it, wherever the Connection field stands among the original fields
+    {
+        let origs: [&[(&str, &[u8])]; 6] = [
+            &[("connection", b"close")], &[("accept", b"*/*"), ("connection", b"close")], &[("connection", b"close"), ("accept", b"*/*")],
+            &[("accept", b"*/*"), ("connection", b"keep-alive"), ("connection", b"close")], &[("accept", b"*/*"), ("connection", b"keep-alive")], &[("accept", b"*/*")]];
+        let preps: [&[(&str, &[u8])]; 5] = [
+            &[("connection", b"keep-alive")], &[("x-added", b"1")], &[("accept", b"text/plain"), ("connection", b"keep-alive")],
+            &[("connection", b"upgrade"), ("upgrade", b"h2c")], &[("connection", b"keep-alive"), ("connection", b"te")]];
+        for orig in origs.iter() {
+            for prep in preps.iter() {
+                for (m, extra) in [("GET", None), ("POST", Some(("content-length", &b"5"[..])))] {
+                    for head in ["HTTP/1.1 200 OK\r\nContent-Length: 0\r\n\r\n", "HTTP/1.1 302 F\r\nLocation: /n\r\nContent-Length: 0\r\n\r\n"] {
+                        cx.case("prepared");
+                        let mut hs: Vec<(&str, &[u8])> = orig.to_vec();
+                        if let Some(e) = extra { hs.push(e); }
+                        let req = format!("{} HTTP/1.1 http://a.test/p {}", m, super::hdrs(&hs));
+                        let ops: Vec<String> = prep.iter().map(|(n, v)| format!("hdr {} {}", n, hx(v))).collect();
+                        c10_exchange_prep(cx, &req, &ops, 0, head.as_bytes());
+                    }
+                }
+            }
+        }
+    }
     // a redirect whose head never ends (broken server): the partial-redirect fallback accepts it; the
     // message boundaries are lost, so the connection must never be offered for reuse
     for reqv in ["HTTP/1.0", "HTTP/1.1"] {
